@@ -25,7 +25,21 @@ pub fn generate(property: &str, seed: u64, tier: Tier) -> Case {
 
 pub fn evaluate(case: &Case, results: &[Vec<RunResult>], report: &mut CaseReport) -> Verdict {
     match case.property.as_str() {
-        "C09" => c09::evaluate(case, results),
+        "C09" => {
+            for n in &case.params.notes {
+                if let Some(rest) = n.strip_prefix("exhaustive:") {
+                    // "<n>_items:<k>_orders"
+                    let orders = rest
+                        .split(':')
+                        .nth(1)
+                        .and_then(|s| s.trim_end_matches("_orders").parse::<u64>().ok())
+                        .unwrap_or(0);
+                    report.count("exhaustive:worlds_with_every_static_resolution_order", 1);
+                    report.count("exhaustive:orders_run", orders);
+                }
+            }
+            c09::evaluate(case, results)
+        }
         "C10" => c10::evaluate(case, results, report),
         "C12" => c12::evaluate(case, results, report),
         "C14" => c14::evaluate(case, results, report),
@@ -37,7 +51,7 @@ pub fn evaluate(case: &Case, results: &[Vec<RunResult>], report: &mut CaseReport
 /// Number of cases per tier.
 pub fn budget(property: &str, tier: Tier) -> u64 {
     match (property, tier) {
-        ("C09", Tier::Quick) => 12_000,
+        ("C09", Tier::Quick) => 9_000,
         ("C09", Tier::Thorough) => 400_000,
         ("C10", Tier::Quick) => 30_000,
         ("C10", Tier::Thorough) => 1_500_000,
@@ -79,7 +93,7 @@ pub fn nontrivial_set(property: &str) -> &'static str {
 pub fn rule(property: &str) -> String {
     let common = "cases are drawn from one xoshiro256** stream per case, seeded by mix(VERIF_SEED, property, case index); a case is one generated project (world) plus the builds to run on it under explicit schedules. ";
     let specific = match property {
-        "C09" => "distinct_nontrivial counts distinct worlds (digest of all input bytes and environment) that declare at least two types/enums AND in which at least two different order traces were actually served at the seams (so the comparison between schedules was not vacuous).",
+        "C09" => "distinct_nontrivial counts distinct worlds (digest of all input bytes and environment) that declare at least two types/enums AND in which at least two different order traces were actually served at the seams (so the comparison between schedules was not vacuous). Family exhaustive_small runs every one of the n! static resolution priorities of a world with n <= 6 user items (counters exhaustive:*); everything else is sampled.",
         "C14" => "distinct_nontrivial counts distinct worlds (input bytes + environment + pre-existing output state) in which at least one environment fault or name collision was present AND the build reached a checked verdict (inventory of every output file compared with the declarations, or the expected error for a collision).",
         "C19" => "distinct_nontrivial counts distinct base worlds whose edit chain produced at least two different worlds, all accepted, with a non-empty set of observed output files that was compared across the chain.",
         "C12" => "distinct_nontrivial counts distinct faulted worlds in which the injected faults had an effect visible to the build (the parse result of some file, the set of input nodes, the output-directory state, the path spelling or the API call history differs from the un-faulted base world) and that were actually executed (not skipped as asking for a large table).",
